@@ -1,4 +1,5 @@
 import Verif.Lemmas.Session
+import Verif.Lemmas.SessionId
 
 /-! # C19 — server session bookkeeping behaves like a map from unique ids to records
 
@@ -105,6 +106,11 @@ theorem c19_ids_unique (cfg : Cfg κ ν) (h : Hist ι κ ν) :
     | clear => simp [Op.newId] at hn
     | count => simp [Op.newId] at hn
     | request _ => simp [Op.newId] at hn
+    | message _ _ => simp [Op.newId] at hn
+    | initSilent sid i c rq =>
+      simp only [Op.newId, Option.some.injEq] at hn; subst hn
+      simp only [runFrom, step]
+      rw [keys_put_fresh _ _ _ (by rw [keys_touchOpt]; exact hnot), keys_touchOpt]
 
 /-- Every initialize creates exactly one session: on any store in which the drawn id is not
 live, the live ids afterwards are the old ones plus the new id; the new record holds the client's
@@ -163,6 +169,45 @@ theorem c19_activity_on_dispatch (cfg : Cfg κ ν) (s : Store ι κ ν) (now : I
       · subst hk; simp [get_put, hg]
       · simp [get_put, hk]
 
+/-- ProtocolHandler ↔ session manager, for EVERY kind of message (request or notification alike):
+a message without a method never touches the store; every other message refreshes the activity of
+the carried session id BEFORE the handler is looked up or called — so the store afterwards is the
+same whether the method is unknown, the handler returns, raises or returns nonsense — and changes
+nothing else; no session is created or removed. -/
+theorem c19_activity_on_every_message_kind (cfg : Cfg κ ν) (s : Store ι κ ν) (now : Int)
+    (sid : Option ι) (k : MsgKind) :
+    (k = .noMethod → (step cfg s now (.message sid k)).1 = s)
+    ∧ (k ≠ .noMethod → (step cfg s now (.message sid k)).1 = touchOpt s sid now
+        ∧ (step cfg s now (.message sid k)).1 = (step cfg s now (.request sid)).1)
+    ∧ keys (step cfg s now (.message sid k)).1 = keys s
+    ∧ (step cfg s now (.message sid k)).2 = .unit := by
+  cases k <;> simp [step, keys_touchOpt]
+
+/-- An initialize WITHOUT an id (a notification by shape) still creates its session — the
+handler runs, the response cannot be built for a null id, the dispatcher swallows that — so the
+store afterwards is exactly the store after the same initialize sent as a request, but nothing
+is handed back: the session exists and nobody was told its id. -/
+theorem c19_initialize_without_id_leaves_a_session (cfg : Cfg κ ν) (s : Store ι κ ν) (now : Int)
+    (sid : Option ι) (id : ι) (c : Option κ) (rq : Option ν) :
+    (step cfg s now (.initSilent sid id c rq)).1 = (step cfg s now (.init sid id c rq)).1
+    ∧ (step cfg s now (.initSilent sid id c rq)).2 = .unit
+    ∧ get (step cfg s now (.initSilent sid id c rq)).1 id
+        = some ⟨c.getD cfg.noClient, cfg.answer rq, now, now⟩ := by
+  simp [step, get_put]
+
+/-- What the freshness assumption buys: when the id supply REPEATS a live id (a subclass may
+override `generate_session_id`), create replaces that session's record — same ids, same count,
+the old record is gone — exactly as `dict[id] = session` does. -/
+theorem c19_repeated_id_overwrites (cfg : Cfg κ ν) (s : Store ι κ ν) (now : Int)
+    (id : ι) (c : κ) (v : ν) (hlive : id ∈ keys s) :
+    keys (step cfg s now (.create id c v)).1 = keys s
+    ∧ get (step cfg s now (.create id c v)).1 id = some ⟨c, v, now, now⟩
+    ∧ ∀ j, j ≠ id → get (step cfg s now (.create id c v)).1 j = get s j := by
+  refine ⟨by simp [step, keys_put, hlive], by simp [step, get_put], ?_⟩
+  intro j hj
+  have : ¬ id = j := fun e => hj e.symm
+  simp [step, get_put, this]
+
 end
 
 /-! ## Non-vacuity: concrete histories (ids `Nat`, client info and versions `String`) -/
@@ -192,10 +237,62 @@ example : abs (run cfgEx histEx).1 = (specRun cfgEx histEx).1 := (c19_refines_ma
 example : (7 ∈ keys (cleanup 10 10 (run cfgEx (histEx.take 3)).1).1)
     ∧ ¬ (7 ∈ keys (cleanup 11 10 (run cfgEx (histEx.take 3)).1).1) := by decide
 
+/-- every message kind with a session id: only the method-less one leaves the stamp alone; an
+id-less initialize leaves a session behind; a repeated id replaces the record -/
+example :
+    ((run cfgEx [(0, .create 7 "a" "v"), (3, .message (some 7) .noMethod)]).1.map (fun p => p.2.last)) = [0]
+    ∧ ((run cfgEx [(0, .create 7 "a" "v"), (3, .message (some 7) .unknownMethod)]).1.map (fun p => p.2.last)) = [3]
+    ∧ ((run cfgEx [(0, .create 7 "a" "v"), (3, .message (some 7) .handlerRaised)]).1.map (fun p => p.2.last)) = [3]
+    ∧ keys (run cfgEx [(0, .create 7 "a" "v"), (3, .initSilent (some 7) 8 none none)]).1 = [7, 8]
+    ∧ ((run cfgEx [(0, .create 7 "a" "v"), (3, .create 7 "b" "w")]).1.map (fun p => (p.1, p.2.client, p.2.created)))
+        = [(7, "b", 3)] := by decide
+
 /-- the freshness hypothesis of `c19_initialize_creates_one` is satisfiable and the conclusion
 is about a non-empty store -/
 example : (5 : Nat) ∉ keys (run cfgEx (histEx.take 3)).1
     ∧ keys (step cfgEx (run cfgEx (histEx.take 3)).1 3 (.init (some 7) 5 none (some "2024-11-05"))).1
         = [7, 9, 5] := by decide
+
+/-! ## The text of a session id (`generate_session_id`, regenerated from `server/session/base.py`) -/
+section
+open Verif.Gen.SessionId Verif.Model.SessionId
+
+/-- The translator covered `generate_session_id`. -/
+theorem c19_session_id_translated : translatable = true := by decide
+
+/-- For every canonical uuid text (8-4-4-4-12 lower-case hex digits joined by `-`) the session id
+is the 32 hex digits without the dashes: 32 characters, all hexadecimal, no `-`. -/
+theorem c19_session_id_format (p : Parts) (h : p.Canonical) :
+    sessionIdOfUuid p.text = p.hex
+    ∧ (sessionIdOfUuid p.text).length = 32
+    ∧ (∀ x ∈ sessionIdOfUuid p.text, isHex x = true)
+    ∧ '-' ∉ sessionIdOfUuid p.text := by
+  have ht := sessionId_text rfl p h
+  obtain ⟨pa, pb, pc, pd, pe, hx⟩ := h
+  refine ⟨ht, ?_, ?_, ?_⟩
+  · rw [ht]; simp [Parts.hex, pa, pb, pc, pd, pe]
+  · rw [ht]; exact hx
+  · rw [ht]
+    intro hm
+    have := hx _ hm
+    revert this; decide
+
+/-- Ids are as unique as the uuids: two canonical uuid texts with the same session id are the
+same text.  (The freshness of `uuid4` itself is the trusted hypothesis of `c19_ids_unique`.) -/
+theorem c19_session_id_injective (p q : Parts) (hp : p.Canonical) (hq : q.Canonical)
+    (h : sessionIdOfUuid p.text = sessionIdOfUuid q.text) : p.text = q.text := by
+  rw [sessionId_text rfl p hp, sessionId_text rfl q hq] at h
+  exact text_injective p q hp hq h
+
+def uuidEx : Parts :=
+  { a := "123e4567".toList, b := "e89b".toList, c := "42d3".toList, d := "a456".toList, e := "426614174000".toList }
+
+example : uuidEx.Canonical := by
+  refine ⟨rfl, rfl, rfl, rfl, rfl, ?_⟩
+  decide
+
+example : sessionIdOfUuid "123e4567-e89b-42d3-a456-426614174000".toList
+    = "123e4567e89b42d3a456426614174000".toList := by decide
+end
 
 end Verif.Props.C19
